@@ -439,11 +439,122 @@ def rule_hd_table(cx, rep, port):
     rep.decide(len(rets) == 1 and is_name(rets[0].value, 'output_header'), 'result', rets[0] if rets else fd, 'returns the assembled header', 'does not return the assembled header')
 
 
+def _column_info_model(cx, p, fd):
+    """column_info_from_node evaluated on abstract syntax nodes of every shape ast.parse of this interpreter produces for a select item
+    (aN, name, star, a.name, a.*, a[N], a["name"], c.name, c[N], a[N+1], another expression with / without an alias): list of problems, or
+    None when the function is outside the abstract interpreter"""
+    from .. import absexec as AX
+    STAR = p.module_consts('rbql_engine')
+    star = '__RBQL_INTERNAL_STAR'
+
+    def node(cls, **fields):
+        return AX.Abs('Node', cls=cls, fields=fields)
+    slice_cls = {type(ast.parse(src).body[0].value.slice).__name__ for src in ('a[1]', 'a["x"]')}
+    wrap = (lambda v: node('Index', value=v)) if 'Index' in slice_cls else (lambda v: v)
+    a, b, c = node('Name', id='a'), node('Name', id='b'), node('Name', id='c')
+    other = node('BinOp', left=node('Name', id='a1'), right=node('Constant', value=1))
+    aliased = node('Compare', alias='total')
+    cases = [
+        ('a1', node('Name', id='a1'), ('a', 0, None, False, None)),
+        ('b12', node('Name', id='b12'), ('b', 11, None, False, None)),
+        ('*', node('Name', id=star), (None, None, None, True, None)),
+        ('foo', node('Name', id='foo'), (None, None, 'foo', False, None)),
+        ('a.name', node('Attribute', value=a, attr='name'), (None, None, 'name', False, None)),
+        ('b.*', node('Attribute', value=b, attr=star), ('b', None, None, True, None)),
+        ('c.name', node('Attribute', value=c, attr='name'), None),
+        ('a[3]', node('Subscript', value=a, slice=wrap(node('Constant', value=3))), ('a', 2, None, False, None)),
+        ('b["x"]', node('Subscript', value=b, slice=wrap(node('Constant', value='x'))), (None, None, 'x', False, None)),
+        ('c[1]', node('Subscript', value=c, slice=wrap(node('Constant', value=1))), None),
+        ('a[a1]', node('Subscript', value=a, slice=wrap(node('Name', id='a1'))), None),
+        ('a1 + 1', other, None),
+        ('<expr> == AS(total)', aliased, (None, None, None, False, 'total')),
+    ]
+    probs = []
+    fields_order = ['table_name', 'column_index', 'column_name', 'is_star', 'alias_name']
+    for title, nd, want in cases:
+        def on_call(ex, n_, fname, recv, args):
+            short = n_.func.attr if isinstance(n_.func, ast.Attribute) else fname
+            if fname == 'isinstance' and len(args) == 2 and isinstance(args[0], AX.Abs) and args[0].kind == 'Node':
+                classes = [args[1]] if (isinstance(args[1], tuple) and len(args[1]) == 2 and args[1][0] == 'global') or not isinstance(args[1], (list, tuple)) else list(args[1])
+                names = [c_[1].split('.')[-1] for c_ in classes if isinstance(c_, tuple) and len(c_) == 2 and c_[0] == 'global']
+                if len(names) != len(classes):
+                    raise Undecided('isinstance against {!r}'.format(args[1]), n_)
+                return args[0].props['cls'] in names or (args[0].props['cls'] == 'Constant' and isinstance(args[0].props['fields'].get('value'), str) and 'Str' in names) \
+                    or (args[0].props['cls'] == 'Constant' and isinstance(args[0].props['fields'].get('value'), int) and 'Num' in names)
+            if fname == 'isinstance' and len(args) == 2 and not isinstance(args[0], AX.Abs):
+                return AX.NOT_HANDLED
+            if fname == 'hasattr' and len(args) == 2 and args[0] == ('global', 'ast') and isinstance(args[1], str):
+                return hasattr(ast, args[1])
+            if short == 'get_field' and len(args) == 2 and isinstance(args[0], AX.Abs) and args[0].kind == 'Node':
+                f_ = dict(args[0].props['fields'])
+                if args[0].props['cls'] == 'Constant' and 'value' in f_:
+                    f_.setdefault('s', f_['value'])
+                    f_.setdefault('n', f_['value'])
+                return f_.get(args[1])
+            if short == 'is_str6' and len(args) == 1:
+                return isinstance(args[0], str)
+            if short == 'search_for_as_alias_pseudo_function' and len(args) == 1 and isinstance(args[0], AX.Abs):
+                return args[0].props['fields'].get('alias')
+            if short in ('QueryColumnInfo', 'make_column_info') or (isinstance(n_.func, ast.Name) and n_.func.id == 'QueryColumnInfo'):
+                kw = dict(ex.last_kwargs or {})
+                for i_, v_ in enumerate(args):
+                    kw[fields_order[i_]] = v_
+                if short == 'QueryColumnInfo':
+                    return tuple(kw.get(k_) for k_ in fields_order)
+            return AX.NOT_HANDLED
+
+        def on_attr(ex, n_, obj, attr):
+            if isinstance(obj, AX.Abs) and obj.kind == 'Node':
+                f_ = obj.props['fields']
+                if attr in f_:
+                    return f_[attr]
+                if obj.props['cls'] == 'Constant' and attr in ('s', 'n') and 'value' in f_:
+                    return f_['value']
+            return AX.NOT_HANDLED
+
+        def on_name(ex, n_, name):
+            if name == 'PY3':
+                return True
+            return AX.NOT_HANDLED
+        ex = AX.Explorer(p, 'rbql_engine', on_call=on_call, on_attr=on_attr, on_name=on_name, max_choices=1)
+        try:
+            runs, cut = ex.explore(fd, [nd])
+        except (Undecided, KeyError, IndexError, TypeError, AttributeError, ValueError) as e_:
+            import os
+            if os.environ.get('RBQL_VERIF_DEBUG'):
+                print('column info model gave up on', title, ':', type(e_).__name__, e_)
+            return None
+        if cut or len(runs) != 1:
+            return None
+        kind, val, _n = runs[0].outcome
+        if kind != 'return':
+            probs.append('`{}` raises'.format(title))
+            continue
+        got = tuple(val) if isinstance(val, (tuple, list)) and len(val) == 5 else val
+        if got != want:
+            def show(v):
+                return 'no column info' if v is None else '(table {}, index {}, name {}, star {}, alias {})'.format(*v) if isinstance(v, tuple) and len(v) == 5 else repr(v)
+            probs.append('`{}` gives {} instead of {}'.format(title, show(got), show(want)))
+    return probs
+
+
 def rule_hd_shapes(cx, rep, port='py'):
     """the node classes tested in the subscript branch of column_info_from_node cover the shapes ast.parse of this interpreter
     produces for a[1] and a["x"]"""
     p = cx.py
     fd = p.func('rbql_engine', 'column_info_from_node')
+    probs = _column_info_model(cx, p, fd)
+    if probs is not None:
+        for key in ('subscript shapes', 'subscript index', 'variable index', 'attribute table'):
+            rep.decide(not probs, key, fd, 'aN, names, stars, a.name, a[N], a["name"] map to (table, zero-based index, name); other tables and expressions give no column (13 node shapes evaluated)', 'select items are not mapped to their source columns: ' + '; '.join(probs[:4]))
+        _hd_alias_search(cx, rep, p)
+        return
+    with rep.as_fallback('column_info_from_node is outside the abstract interpreter'):
+        _rule_hd_shapes_shape(cx, rep, p, fd)
+    _hd_alias_search(cx, rep, p)
+
+
+def _rule_hd_shapes_shape(cx, rep, p, fd):
     branch = [n for n in fd.body if isinstance(n, ast.If) and 'ast.Subscript' in node_text(n.test)]
     if len(branch) != 1:
         raise Undecided('column_info_from_node: subscript branch not found', fd)
@@ -481,6 +592,9 @@ def rule_hd_shapes(cx, rep, port='py'):
     ab = [n for n in fd.body if isinstance(n, ast.If) and 'ast.Attribute' in node_text(n.test)]
     oka = bool(ab) and "table_name not in ['a', 'b']" in node_text(ab[0], 3000)
     rep.decide(oka, 'attribute table', ab[0] if ab else fd, 'a.name / b.name only', 'attribute access on something other than a/b is treated as a column')
+
+
+def _hd_alias_search(cx, rep, p):
     al = p.func('rbql_engine', 'search_for_as_alias_pseudo_function')
     root = al.args.args[0].arg
     loops = [n for n in walk_no_nested(al) if isinstance(n, ast.For)]
